@@ -166,6 +166,64 @@ fn run_case(bits: usize, m: usize, t: usize, seeded: bool, rseed: u64) -> Value 
     drop(st2);
     out["drop_statement"] = disarm_scan(&patterns);
 
+    // phase 5: owning types built from vectors whose spare capacity still holds secrets (truncate / drain leave stale copies behind):
+    // the whole buffer that held secrets must be wiped, not only its live elements
+    let spare: Vec<Scalar> = (0..2).map(|_| Scalar::random(&mut rng)).collect();
+    let mut pat2 = patterns.clone();
+    for (i, x) in spare.iter().enumerate() {
+        pat2.push((format!("spare[{}]", i), x.as_bytes().to_vec()));
+    }
+    let mk_trunc = |bl: &Vec<Scalar>| {
+        let mut r = Vec::with_capacity(bl.len() + 4);
+        r.extend_from_slice(bl);
+        r.extend_from_slice(&spare);
+        r.truncate(bl.len());
+        r
+    };
+    let mk_drain = |bl: &Vec<Scalar>| {
+        let mut r = Vec::with_capacity(bl.len() + 4);
+        r.extend_from_slice(&spare);
+        r.extend_from_slice(bl);
+        r.drain(..2);
+        r
+    };
+    let o3 = CommitmentOpening::new(values[0], mk_trunc(&blindings[0]));
+    let o4 = CommitmentOpening::new(values[0], mk_drain(&blindings[0]));
+    arm();
+    drop(o3);
+    drop(o4);
+    out["drop_opening_spare"] = disarm_scan(&pat2);
+    let em3 = ExtendedMask::assign(ext(t), mk_trunc(&blindings[0])).unwrap();
+    let em4 = ExtendedMask::assign(ext(t), mk_drain(&blindings[0])).unwrap();
+    arm();
+    drop(em3);
+    drop(em4);
+    out["drop_mask_spare"] = disarm_scan(&pat2);
+    let ops3: Vec<CommitmentOpening> =
+        values.iter().zip(blindings.iter()).enumerate().map(|(j, (v, r))| CommitmentOpening::new(*v, if j % 2 == 0 { mk_trunc(r) } else { mk_drain(r) })).collect();
+    let w3 = RangeWitness::init(ops3).unwrap();
+    let mut tr3 = Transcript::new(b"bpv-alloc");
+    arm();
+    let p3 = RangeProof::<RistrettoPoint>::prove_with_rng(&mut tr3, &statement, &w3, &mut prng);
+    drop(w3);
+    out["prove_drop_witness_spare"] = disarm_scan(&pat2);
+    out["prove_spare_ok"] = json!(p3.is_ok());
+    // the vector of openings itself: an opening that was pushed and popped again leaves its bytes (value, pointer) in the spare capacity
+    let extra_v: u64 = rng.next_u64() | (1 << 63) | 0x0101_0101_0101_0101;
+    let mut ops4: Vec<CommitmentOpening> = Vec::with_capacity(m + 2);
+    for (v, r) in values.iter().zip(blindings.iter()) {
+        ops4.push(CommitmentOpening::new(*v, r.clone()));
+    }
+    ops4.push(CommitmentOpening::new(extra_v, blindings[0].clone()));
+    let popped = ops4.pop();
+    drop(popped);
+    let w4 = RangeWitness::init(ops4).unwrap();
+    let mut pat3 = patterns.clone();
+    pat3.push(("popped_opening_value".into(), extra_v.to_le_bytes().to_vec()));
+    arm();
+    drop(w4);
+    out["drop_witness_vec_spare"] = disarm_scan(&pat3);
+
     // the inline seed of a statement is cleared by its Drop
     if seeded {
         let mut md = std::mem::ManuallyDrop::new(statement.clone());
